@@ -90,6 +90,11 @@ func exploreDKG(c *Ctx, n, t int, hooks dkgHooks, maxStates int) (states, transi
 		mon := s.Mon.(monC05)
 		leaf := s.Name == StIdle || len(s.Name) > 14 && s.Name[:14] == "state_signing_"
 		for _, ev := range alphabet {
+			if ev.Variant == "othercontent" && !(mon.Inited && ev.Phase == mon.Phase && ev.P < 31 && mon.Got[ev.Phase]&(1<<uint(ev.P)) != 0) {
+				// a second, different contribution with the first one's time stamp: only tried as a duplicate,
+				// i.e. when this participant's contribution of the running phase has been delivered
+				continue
+			}
 			res := ex.step(s, ev)
 			transitions++
 			nm, expand := hooks.onTransition(ex, s, ev, &res, mon)
